@@ -63,6 +63,11 @@ def is_unknown(v: Any) -> bool:
     return False
 
 
+class _Return(Exception):
+    def __init__(self, value):
+        self.value = value
+
+
 class Folder:
     def __init__(self, program: Program, hooks: Optional[Dict[str, Callable[[Dict[str, Any]], None]]] = None):
         self.p = program
@@ -175,6 +180,8 @@ class Folder:
         if isinstance(st, ast.Try):
             self._exec_block(m, st.body, env)
             return
+        if isinstance(st, ast.Return):
+            raise _Return(self.eval(m, st.value, env) if st.value is not None else None)
         if isinstance(st, (ast.Pass,)):
             return
         if isinstance(st, ast.Delete):
@@ -414,6 +421,8 @@ class Folder:
                     return getattr(obj, name)(*args)
             return Unknown(f"method .{name} on {type(obj).__name__}")
         fn = ev(f)
+        if isinstance(fn, Ref) and fn.kind == "function" and isinstance(fn.node, ast.FunctionDef):
+            return self._call_function(m, fn.node, args, {kw.arg: ev(kw.value) for kw in e.keywords if kw.arg}, env)
         if isinstance(fn, Ref) and fn.kind == "builtin":
             if any(isinstance(a, Unknown) for a in args):
                 return Unknown(f"argument of {fn.name}")
@@ -444,6 +453,47 @@ class Folder:
             if fn.name == "int":
                 return int(args[0])
         return Unknown(f"call {ast.unparse(f)[:40]}")
+
+
+def _bind_call(self, m, fnode, args, kwargs, env):
+    a = fnode.args
+    names = [x.arg for x in a.posonlyargs + a.args]
+    local = dict(env)
+    defaults = dict(zip(names[len(names) - len(a.defaults):], a.defaults))
+    for i, nme in enumerate(names):
+        if i < len(args):
+            local[nme] = args[i]
+        elif nme in kwargs:
+            local[nme] = kwargs[nme]
+        elif nme in defaults:
+            local[nme] = self.eval(m, defaults[nme], env)
+        else:
+            local[nme] = Unknown(f"missing argument {nme}")
+    if a.vararg:
+        local[a.vararg.arg] = tuple(args[len(names):])
+    for k, dv in zip(a.kwonlyargs, a.kw_defaults):
+        local[k.arg] = kwargs.get(k.arg, self.eval(m, dv, env) if dv is not None else Unknown("kwonly"))
+    return local
+
+
+def _call_function(self, m, fnode, args, kwargs, env):
+    """evaluate a configuration-local helper function (closed statement subset; bounded depth)"""
+    depth = getattr(self, "_depth", 0)
+    if depth > 8:
+        return Unknown("helper recursion too deep")
+    self._depth = depth + 1
+    try:
+        local = _bind_call(self, m, fnode, args, kwargs, env)
+        try:
+            self._exec_block(m, fnode.body, local)
+        except _Return as r:
+            return r.value
+        return None
+    finally:
+        self._depth = depth
+
+
+Folder._call_function = _call_function
 
 
 def _hashable(v: Any) -> Any:
